@@ -182,6 +182,12 @@ def run(ctx):
     st = run_shift(ctx, binp, items, "e2e-C13 generated")
     stats['generated'] = st
     ctx.log("e2e-C13 generated: %s" % st)
+    # stroke-only shapes and images drawn directly on portrait / landscape canvases, shifted across every edge by
+    # less than the stroke width; images at every canvas position (seeded changes C13-3, C13-4)
+    eitems = [rc.gen_edge_case(rng) for _ in range(500 if quick else 5000)]
+    st = run_shift(ctx, binp, eitems, "e2e-C13 edges")
+    stats['edges'] = st
+    ctx.log("e2e-C13 edges: %s" % st)
     ctx.add_sample(dict(op='c13-shift', doc='@' + files[len(files) // 2], view='1:0.37:0.61', shift=[7, -13]))
     ctx.add_sample(dict(op='c13-shift', doc=items[1][0], view=items[1][1], shift=[items[1][2], items[1][3]]))
     ctx.cov['e2e'] = stats
